@@ -60,7 +60,7 @@ FSTR = ["f'{a}'", "f'{a!r}'", "f'{a:>{w}}'", "f'{a!s:{w}.{p}}'", "f'{a=}'", "f'{
         "f'{(lambda: 1)()}'", "f'{a if b else c}'", "f'{a:{b:{c}}}'", "f'{\"s\"}'", "f\"{'s'}\"", "f'''{a}'''", "f'{a!a:x}'", "f'{a:x}{b!r}'", "'x' f'{a}' 'y'",
         "f'{a}' f'{b}'", "f'{{{a}}}'", "f'{a:{{}}}'", "f'\\n{a}'", "f'{a}\\''", "f'{a:\\n}'", "f'{*a,}'", "f'{a,}'", "f'{(a:=1)}'", "f'{a!r:^{w}}'", "rf'{a}\\d'",
         "f'{a:}'", "f'{a:{b}}'", "f'{ {1: 2}[1] }'", "f'{ {1, 2} }'", "f'{a}\"'", "f\"{a}'\"", "f'''{a}'\"'''", "f'{b\"x\"}'", "f'{3.}'", "f'{3.:.2f}'", "f'{-1}'",
-        "f'{a.b}'", "f'{a()}'", "f'{not a}'", "f'{a or b}'", "f'{yield}'", "f'{await a}'", "f'{a < b}'", "f'{a != b}'", "f'{a!=b!r}'"]
+        "f'{a.b}'", "f'{a()}'", "f'{not a}'", "f'{a or b}'", "f'{yield}'", "f'{await a}'", "f'{a < b}'", "f'{a != b}'", "f'{a!=b!r}'", 'f"{a}" "\\\n"', '"\\\n" f"{a}"', "u'a' f'{a}b'", "f'{a:xé}{b}'"]
 
 
 def lambda_texts(tier):
